@@ -8,7 +8,7 @@ from mc.params import pat_tensor
 
 def dev_signature(subject, cfg):
     d = subject.default()
-    return ",".join("%s=%s" % (a, _short(cfg[a])) for a in sorted(cfg) if cfg[a] != d[a]) or "default"
+    return ",".join("%s=%s" % (a, _short(cfg[a])) for a in sorted(cfg) if cfg[a] != d.get(a)) or "default"
 
 
 def _short(v):
